@@ -306,6 +306,9 @@ func heapName(t types.Type) string {
 var ghostHeaps = map[string][2]string{}
 
 func heapSort(name string) string {
+	if strings.HasPrefix(name, "G_held|") {
+		return "(Array Ptr Bool)"
+	}
 	if strings.HasPrefix(name, "G_") {
 		if gs, ok := ghostHeaps[name[2:]]; ok {
 			return "(Array " + gs[0] + " " + gs[1] + ")"
